@@ -171,6 +171,28 @@ Qed.
 Lemma run_fresh h : forall s, Forall pfresh (ps s) -> Forall pfresh (ps (run s h)).
 Proof. induction h as [|e h IH]; intros s H; cbn; auto. apply IH, do_ev_fresh, H. Qed.
 
+(* no event changes which tensors the optimizer owns *)
+Lemma do_ev_given s e : map given (ps (do_ev s e)) = map given (ps s).
+Proof.
+  destruct e as [gs| | |i|i]; cbn.
+  - revert gs. induction (ps s) as [|p l IH]; intros [|g gs]; cbn; auto. f_equal; auto.
+    destruct g as [g|]; cbn; auto. unfold accumulate. destruct (req p), (gcur p); reflexivity.
+  - induction (ps s) as [|p l IH]; cbn; auto. f_equal; auto. destruct (given p) eqn:E; cbn; auto.
+  - induction (ps s) as [|p l IH]; cbn; auto. f_equal; auto. unfold step1.
+    destruct (given p) eqn:E; auto. destruct (pstep _ _ _ _ _ _) as [[s' d']|]; cbn; auto.
+  - revert i. induction (ps s) as [|p l IH]; intros [|i]; cbn; auto. f_equal; auto.
+  - revert i. induction (ps s) as [|p l IH]; intros [|i]; cbn; auto. f_equal; auto.
+Qed.
+
+Lemma run_given h : forall s, map given (ps (run s h)) = map given (ps s).
+Proof.
+  induction h as [|e h IH]; intros s; [reflexivity|].
+  transitivity (map given (ps (do_ev s e))); [exact (IH (do_ev s e)) | apply do_ev_given].
+Qed.
+
+Lemma init_given sinit l : map given (ps (init O St sinit l)) = map (fun x : V * bool * bool => snd x) l.
+Proof. induction l as [|[[d r] g] l IH]; cbn; auto. f_equal; auto. Qed.
+
 Lemma init_fresh sinit l : fresh sinit -> Forall pfresh (ps (init O St sinit l)).
 Proof. intros H. induction l as [|[[d r] g] l IH]; cbn; constructor; auto. Qed.
 
@@ -491,6 +513,11 @@ Proof.
 Qed.
 
 End Final.
+
+(* the optimizer owns exactly the tensors it was given, in order, for ever *)
+Lemma owns_given (O : arr_ops) St pstep sinit l h :
+  map given (ps (run O St pstep (init O St sinit l) h)) = map (fun x : V O * bool * bool => snd x) l.
+Proof. rewrite (run_given O St pstep h). apply init_given. Qed.
 
 (* ---- write summaries of the three loop bodies ---- *)
 Definition all_writes : list (wtarget * wkind) := sgd_writes ++ adam_writes ++ adamw_writes.
